@@ -46,6 +46,7 @@ class Session:
         self.outcomes = []
         self.interleave = []
         self.nontrivial = set()
+        self.stats.nt = self.nontrivial
 
     # ------------------------------------------------------------------
     def fail(self, prop, clause, detail, sig=""):
